@@ -49,6 +49,8 @@ type Entity struct {
 	staging []Operation
 
 	lastCommit repository.Hash
+	// the commit the reference of this Entity pointed to when it was read, or moved to by Commit
+	refCommit repository.Hash
 }
 
 // New create an empty Entity
@@ -256,6 +258,7 @@ func read[EntityT entity.Interface](def Definition, wrapper func(e *Entity) Enti
 		Definition: def,
 		ops:        ops,
 		lastCommit: rootHash,
+		refCommit:  rootHash,
 		createTime: createTime,
 		editTime:   editTime,
 	}), nil
@@ -465,6 +468,20 @@ func (e *Entity) Commit(repo repository.ClockedRepo) error {
 		return fmt.Errorf("can't commit an entity with no pending operation")
 	}
 
+	// The reference is only moved if it still points where this Entity has read it, or moved it,
+	// last. Otherwise (another object of the same entity has been committed, a pull merged a remote
+	// version) moving it would drop what has been committed there in the meantime.
+	if e.refCommit != "" {
+		ref := fmt.Sprintf(refsPattern, e.Namespace, e.Id().String())
+		current, err := repo.ResolveRef(ref)
+		if err != nil && err != repository.ErrNotFound {
+			return err
+		}
+		if err == nil && current != e.refCommit {
+			return fmt.Errorf("can't commit a %s that changed in the repository since it was loaded", e.Definition.Typename)
+		}
+	}
+
 	err := e.Validate()
 	if err != nil {
 		return errors.Wrapf(err, "can't commit a %s with invalid data", e.Definition.Typename)
@@ -535,7 +552,11 @@ func (e *Entity) Commit(repo repository.ClockedRepo) error {
 	// When pushing later, the remote will ensure that this ref update
 	// is fast-forward, that is no data has been overwritten.
 	ref := fmt.Sprintf(refsPattern, e.Namespace, e.Id().String())
-	return repo.UpdateRef(ref, e.lastCommit)
+	if err := repo.UpdateRef(ref, e.lastCommit); err != nil {
+		return err
+	}
+	e.refCommit = e.lastCommit
+	return nil
 }
 
 // CreateLamportTime return the Lamport time of creation
